@@ -63,6 +63,22 @@ CLAIMS["C01"] = dict(
     technique="enumerator/case-label agreement, guard-vs-access contradiction analysis on the CFG, exception-escape analysis",
     design="DESIGN.md section 4, C01")
 
+CLAIMS["C15"] = dict(
+    text="Nine exact necessary conditions of crash-freedom over the btcdeb-authored units: no explicit throw leaves an entry point "
+         "(mains, kerl callbacks); allocator/deallocator families agree; transaction-derived indices are range-checked before use; "
+         "stores into fixed arrays are bounded; a failed fgets buffer is not read; division/shift by script data is guarded; "
+         "assert-backed size preconditions are established at every authored call site; `default: assert(0)` of opcode switches is "
+         "unreachable; no iterator into the exec temporary is stored. The universal statement (no UB for every input) is not decided.",
+    technique="exception-escape analysis, allocation-family provenance, guard dominance and bounded-index patterns on the CFG",
+    design="DESIGN.md section 4, C15")
+CLAIMS["C16"] = dict(
+    text="Write-set of Instance::eval excludes the script position / remaining script / histories; a failing or throwing exec'd "
+         "operation is reported without ending the session; eval runs the same operation step on the session environment with a local "
+         "iterator; the operation step depends on its local_script parameter only for byte-source selection, pass-through and the "
+         "iterator-store guard. Token classification and state equality with a reference are not decided.",
+    technique="interprocedural write-set exclusion + parameter-use classification + exception-escape analysis",
+    design="DESIGN.md section 4, C16")
+
 NOT_YET = "check not built yet in this round (see DESIGN.md section 7 build order)"
 
 NA = {
